@@ -60,6 +60,28 @@ struct UnitRenamed;
 #[derive(IdenStatic, Clone, Copy)]
 struct UnitStatic;
 
+// one type per punctuation character: the fast path is chosen per type, so a wrong per-name predicate shows only when
+// every name of the type passes it
+macro_rules! punct_types {
+    ($($e:ident $u:ident $name:literal),* $(,)?) => {
+        $( #[derive(Iden)] enum $e { Table, #[iden = $name] V, Plain }
+           #[derive(Iden)] #[iden = $name] struct $u; )*
+        fn punct_items() -> Vec<(String, &'static str, Box<dyn Iden>)> {
+            let mut v: Vec<(String, &'static str, Box<dyn Iden>)> = Vec::new();
+            $( v.push((format!("{}::V", stringify!($e)), $name, Box::new($e::V)));
+               v.push((format!("{}::Table", stringify!($e)), "", Box::new($e::Table)));
+               v.push((format!("{}::Plain", stringify!($e)), "plain", Box::new($e::Plain)));
+               v.push((stringify!($u).to_string(), $name, Box::new($u))); )*
+            v
+        }
+    };
+}
+punct_types!(PunctRb UnitRb "a]b", PunctLb UnitLb "a[b", PunctSq UnitSq "it's", PunctDash UnitDash "a-b", PunctSpace UnitSpace "a b", PunctDot UnitDot "a.b",
+    PunctDollar UnitDollar "a$b", PunctBs UnitBs "a\\b", PunctSlash UnitSlash "a/b", PunctColon UnitColon "a:b", PunctParen UnitParen "f(x)", PunctBrace UnitBrace "a{{b}}", PunctBrace2 UnitBrace2 "{{}}",
+    PunctAngle UnitAngle "a<b>", PunctHash UnitHash "a#b", PunctAt UnitAt "a@b", PunctBang UnitBang "a!b", PunctPct UnitPct "a%b", PunctAmp UnitAmp "a&b", PunctStar UnitStar "a*b",
+    PunctPlus UnitPlus "a+b", PunctComma UnitComma "a,b", PunctSemi UnitSemi "a;b", PunctEq UnitEq "a=b", PunctQm UnitQm "a?b", PunctCaret UnitCaret "a^b", PunctPipe UnitPipe "a|b",
+    PunctTilde UnitTilde "a~b", PunctDq UnitDq "a\"b", PunctTick UnitTick "a`b", PunctNonAscii UnitNonAscii "caf\u{e9}", PunctDigit UnitDigit "1st", PunctEmpty UnitEmpty "");
+
 #[enum_def]
 #[allow(dead_code, non_snake_case)]
 struct FooBarBaz { id: i32, created_at: String, xY_z: bool, HTTPCode: u8 }
@@ -71,6 +93,13 @@ struct Affixed { some_field: i32 }
 struct WithTable { a_b: i32 }
 
 fn general(b: B, name: &str) -> String { let mut s = String::new(); Alias::new(name).prepare(&mut s, qb(b).quote()); s }
+
+/// every quote a custom backend may use: each ASCII punctuation byte on both sides, and the bracket pairs
+fn custom_quotes() -> Vec<Quote> {
+    let mut v: Vec<Quote> = (0x20u8..0x7f).filter(|b| !b.is_ascii_alphanumeric() && *b != b'_').map(Quote::new).collect();
+    for (l, r) in [('[', ']'), ('(', ')'), ('<', '>'), ('{', '}'), ('"', '`')] { v.push((l, r).into()); }
+    v
+}
 
 fn check_value(ctx: &mut Ctx, label: &str, it: &dyn Iden, expect_name: &str) {
     ctx.eval_only(&format!("derived {label}"), true);
@@ -86,6 +115,19 @@ fn check_value(ctx: &mut Ctx, label: &str, it: &dyn Iden, expect_name: &str) {
         let one = matches!(reflex::lex(b, &sql), Ok(ref t) if t.len() == 1 && t[0] == Tok::Ident(name.clone()));
         if !ok || sql != g || !one {
             ctx.oracle_fail("the derived prepare() differs from the general identifier quoting", serde_json::json!({"item": label, "backend": b.name(), "name": name, "derived": sql, "general": g}));
+        }
+    }
+    // the quote character is chosen at run time (Quote is public and so is QuotedBuilder): the generated prepare() must agree
+    // with the general quoting (Iden::prepare's default body, here through Alias) for every quote
+    for q in custom_quotes() {
+        ctx.count("derived.custom_quote");
+        let mut sql = String::new();
+        let ok = catch(|| it.prepare(&mut sql, q)).is_some();
+        let mut g = String::new();
+        Alias::new(name.clone()).prepare(&mut g, q);
+        let want = format!("{}{}{}", q.left(), name.replace(q.right(), &q.right().to_string().repeat(2)), q.right());
+        if !ok || sql != g || g != want {
+            ctx.oracle_fail("the derived prepare() differs from the general identifier quoting", serde_json::json!({"item": label, "quote": format!("{}{}", q.left(), q.right()), "name": name, "derived": sql, "general": g, "rule": want}));
         }
     }
 }
@@ -104,7 +146,7 @@ fn rand_ident(r: &mut SplitMix64) -> String {
 pub fn run(ctx: &mut Ctx) {
     let thorough = ctx.tier_thorough;
     let n = if thorough { 400000 } else { 60000 };
-    ctx.rule = format!("~75 derived items expanded by /repo's macros at build time (PascalCase, acronym, digit and underscore patterns; Table variants; #[iden = ..], #[iden(rename = ..)], #[method = ..], container renames on enums and unit structs, flattened variants with quote-bearing inner names, IdenStatic, enum_def with prefix / suffix / table_name): to_string vs the documented rule (heck snake_case as the reference), prepare() vs the general quoting on 3 backends, as_str; then {} generated ASCII identifiers: Lean model of to_snake_case / to_pascal_case / must_be_valid_iden vs heck and vs the rule. Non-trivial = every item; distinct by item.", n);
+    ctx.rule = format!("~200 derived items expanded by /repo's macros at build time (PascalCase, acronym, digit and underscore patterns; Table variants; #[iden = ..], #[iden(rename = ..)], #[method = ..], container renames on enums and unit structs, flattened variants with quote-bearing inner names, IdenStatic, enum_def with prefix / suffix / table_name): to_string vs the documented rule (heck snake_case as the reference), prepare() vs the general quoting on 3 backends and for every quote a custom backend may pass (each ASCII punctuation byte, bracket pairs), one type per punctuation character so that the per-type fast-path predicate is exercised alone, as_str; then {} generated ASCII identifiers: Lean model of to_snake_case / to_pascal_case / must_be_valid_iden vs heck and vs the rule. Non-trivial = every item; distinct by item.", n);
     // plain enums: Table = snake(type name); variants = snake(variant)
     let mut items = FontGlyph::all(); items.extend(HTTPRequestLog::all()); items.extend(x_lower::all());
     for (ty, v, it) in items {
@@ -135,6 +177,10 @@ pub fn run(ctx: &mut Ctx) {
     check_value(ctx, "OuterFlat::Inner(Tick)", &OuterFlat::Inner(InnerQ::Tick), "ti`ck");
     check_value(ctx, "OuterFlat::Inner(Fine)", &OuterFlat::Inner(InnerQ::Fine), "fine");
     check_value(ctx, "OuterFlat::Named{Weird}", &OuterFlat::Named { inner: InnerQ::Weird }, "we\"ird");
+    for (label, name, it) in punct_items() {
+        let expect = if name.is_empty() && label.ends_with("::Table") { label.trim_end_matches("::Table").to_snake_case() } else { name.to_string() };
+        check_value(ctx, &label, it.as_ref(), &expect);
+    }
     check_value(ctx, "UnitPlainStruct", &UnitPlainStruct, "unit_plain_struct");
     check_value(ctx, "UnitRenamed", &UnitRenamed, "Unit Renamed\"");
     check_value(ctx, "UnitStatic", &UnitStatic, "unit_static");
